@@ -267,7 +267,11 @@ class Run:
                     else:
                         shutil.copy2(exe, os.path.join(self.rundir, "driver_" + mname))
                 if ok_all:
+                    # dispatcher so that both `driver <model>` and `driver_<model>` work
                     self.driver = os.path.join(self.rundir, "driver")
+                    with open(self.driver, "w") as f:
+                        f.write('#!/bin/sh\nexec "$0_$1"\n')
+                    os.chmod(self.driver, 0o755)
             else:
                 rc, out = sh(["lake", "build", "driver"], cwd=LEAN, timeout=3000)
                 self.log("lake_driver.log", out)
